@@ -61,9 +61,10 @@ static _Bool free_list_ok(int b) {
   }
   return 0;
 }
+_Bool spec_ignore_retired;      /* set where "no linked node is retired" is asserted separately (vhm.erase.retires_only_removed) */
 static _Bool cell_ok(kcell_t kc, vcell_t vc) {     /* storage invariant of one occupied item */
 #ifdef XV_NT
-  int i = node_index(vc); return i < NN && node_retired[i] == 0 && kc == XV_HASH(vc->data.first);
+  int i = node_index(vc); return i < NN && (spec_ignore_retired || node_retired[i] == 0) && kc == XV_HASH(vc->data.first);
 #else
   return 1;
 #endif
@@ -91,56 +92,61 @@ static _Bool inv_B(const bucket_t* B, int maxchain) {
   return 1;
 }
 
-/* ------------------------------------------------------------------ monitors: the writer GUARANTEE the lock-free reader relies on */
+/* ------------------------------------------------------------------ monitors: the writer GUARANTEE the lock-free reader relies on.
+ * Kept cheap: address classification by comparison with concrete addresses, sticky flags, no list walks. */
 _Bool mon_on; bstate_t mon_prev_state; uint32_t mon_version0; _Bool chain0[POOL];
-_Bool mon_bad_slot_store, mon_bad_state_step, mon_bad_item_store, mon_bad_frame, mon_bad_order, mon_lock_dropped;
+_Bool mon_bad_slot_store, mon_bad_state_step, mon_bad_item_store, mon_bad_order, mon_lock_dropped;
+_Bool mon_next_store_v0[POOL];       /* item p had its `next` written while the bucket version was still the initial one */
 unsigned mon_state_stores, mon_unlocks, mon_slot_stores, mon_head_stores; int mon_last_state_order;
 bucket_t g_other0; bucket_t* g_other;
+#define VERSION_MASK ((uint32_t)((((uint64_t)1) << (32 - version_shift)) - 1))
 static void mon_state_step(bstate_t old, bstate_t new, int o) {
   /* a set delete marker is cleared or changed only together with a version bump; the item count shrinks only together with a version bump;
-     the version moves forward by at most 2 per store; the count changes by at most one */
-  uint32_t dv = (BS_version(new) - BS_version(old)) & (uint32_t)((((uint64_t)1) << (32 - version_shift)) - 1);
-  if (BS_delete_marker(old) != 0 && BS_delete_marker(new) != BS_delete_marker(old) && dv == 0) mon_bad_state_step = 1;
-  if (BS_item_count(new) < BS_item_count(old) && dv == 0) mon_bad_state_step = 1;
-  if (dv > 2) mon_bad_state_step = 1;
-  if (BS_item_count(new) > NSLOT) mon_bad_state_step = 1;
+     the version moves forward by at most 2 per store */
+  uint32_t dv = (BS_version(new) - BS_version(old)) & VERSION_MASK;
+  uint32_t dm0 = BS_delete_marker(old), dm1 = BS_delete_marker(new), ic0 = BS_item_count(old), ic1 = BS_item_count(new);
+  if (dm0 != 0 && dm1 != dm0 && dv == 0) mon_bad_state_step = 1;
+  if (ic1 < ic0 && dv == 0) mon_bad_state_step = 1;
+  if (dv > 2 || ic1 > NSLOT) mon_bad_state_step = 1;
   /* publishing stores (anything but setting a marker or a pure unlock) are release */
-  if ((dv != 0 || BS_item_count(new) != BS_item_count(old)) && !XV_IS_RELEASE(o)) mon_bad_order = 1;
+  if ((dv != 0 || ic1 != ic0) && !XV_IS_RELEASE(o)) mon_bad_order = 1;
 }
 static void mon_store(void* addr, uint64_t v, int o) {
   if (!mon_on) return;
   bucket_t* B = g_B;
   if (addr == (void*)&B->state) {
-    if (BS_is_locked(mon_prev_state) == 0) mon_lock_dropped = 1;       /* a store to the state of a bucket we do not hold */
+    if (!BS_is_locked(mon_prev_state)) mon_lock_dropped = 1;       /* a store to the state of a bucket we do not hold */
     mon_state_step(mon_prev_state, B->state, o);
     mon_prev_state = B->state; mon_state_stores++; mon_last_state_order = o;
     if (!BS_is_locked(B->state)) mon_unlocks++;
     return;
   }
   for (uint32_t i = 0; i < NSLOT; ++i) if (addr == (void*)&B->key[i] || addr == (void*)&B->value[i]) {
+    bstate_t st = B->state;
     mon_slot_stores++;
-    if (!BS_is_locked(B->state)) mon_bad_slot_store = 1;
-    if (i < BS_item_count(B->state)) {     /* occupied slot: only under a delete marker naming it; value published with release */
-      if (BS_delete_marker(B->state) != i + 1) mon_bad_slot_store = 1;
+    if (!BS_is_locked(st)) mon_bad_slot_store = 1;
+    if (i < BS_item_count(st)) {     /* occupied slot: only under a delete marker naming it; value published with release */
+      if (BS_delete_marker(st) != i + 1) mon_bad_slot_store = 1;
       if (addr == (void*)&B->value[i] && !XV_IS_RELEASE(o)) mon_bad_order = 1;
     }
     return;
   }
-  if (addr == (void*)&B->head) { mon_head_stores++; if (!BS_is_locked(B->state)) mon_bad_slot_store = 1; if (!XV_IS_RELEASE(o)) mon_bad_order = 1; return; }
-  for (int p = 0; p < POOL; ++p) {
-    extension_item* x = POOL_ITEM(p);
-    if (addr == (void*)&x->key || addr == (void*)&x->value || addr == (void*)&x->next) {
-      /* an item that was linked when the operation started is not written before the version has moved on, except for
-         unlinking its successor (a `next` store that leaves the item itself linked) */
-      if (chain0[p] && BS_version(B->state) == mon_version0 && !(addr == (void*)&x->next && in_chain(B, x))) mon_bad_item_store = 1;
-      if (chain0[p] && in_chain(B, x) && addr != (void*)&x->next) mon_bad_item_store = 1;
-      return;
-    }
+  if (addr == (void*)&B->head) {      /* linking a new item publishes it: release (unlinking stores are not constrained here) */
+    mon_head_stores++; if (!BS_is_locked(B->state)) mon_bad_slot_store = 1;
+    int p = pool_index(B->head); _Bool was_linked = 0; for (int q = 0; q < POOL; ++q) if (q == p && chain0[q]) was_linked = 1;
+    if (B->head != 0 && !was_linked && !XV_IS_RELEASE(o)) mon_bad_order = 1;
+    return; }
+  for (int p = 0; p < POOL; ++p) if (chain0[p]) {
+    extension_item* x = POOL_ITEM_C(p);
+    /* an item that was linked when the operation started is not written before the version has moved on; the only exception is the
+       `next` store that unlinks its successor - and that one must not hit the item being removed itself (checked at the end) */
+    if (addr == (void*)&x->key || addr == (void*)&x->value) { if (BS_version(B->state) == mon_version0) mon_bad_item_store = 1; return; }
+    if (addr == (void*)&x->next) { if (BS_version(B->state) == mon_version0) mon_next_store_v0[p] = 1; return; }
   }
 }
 static void mon_load(void* addr, uint64_t v, int o) { }
 static void mon_cas(void* addr, uint64_t e, uint64_t d, _Bool ok, int o) {
   if (!mon_on) return;
-  if (addr == (void*)&g_B->state && ok) { mon_prev_state = g_B->state; }
+  if (addr == (void*)&g_B->state && ok) { mon_prev_state = (bstate_t)d; }    /* the monitor runs before the cell is written */
 }
 #endif
